@@ -173,5 +173,91 @@ func ruleR2(p *Prog) *RuleResult {
 			}
 		}
 	}
+	// embedded cursors: a set-up function that re-aims an embedded sub-iterator (ii.runIter, ii.shortIter ...)
+	// either overwrites it as a whole or assigns every field of it that its own methods step
+	for _, f := range fns {
+		nt, st := recvStruct(f)
+		if nt == nil || f.Blocks == nil || len(stepped[nt]) == 0 {
+			continue // only types that are cursors themselves
+		}
+		type acc struct {
+			whole  bool
+			fields map[int]bool
+			pos    ssa.Instruction
+		}
+		emb := map[int]*acc{}
+		for _, b := range f.Blocks {
+			for _, ins := range b.Instrs {
+				sto, ok := ins.(*ssa.Store)
+				if !ok {
+					continue
+				}
+				fa, ok := sto.Addr.(*ssa.FieldAddr)
+				if !ok {
+					continue
+				}
+				// whole: &recv.E <- struct
+				if fa.X == ssa.Value(f.Params[0]) {
+					if ent, ok := st.Field(fa.Field).Type().(*types.Named); ok && len(stepped[ent]) > 0 {
+						a := emb[fa.Field]
+						if a == nil {
+							a = &acc{fields: map[int]bool{}, pos: sto}
+							emb[fa.Field] = a
+						}
+						a.whole = true
+					}
+					continue
+				}
+				// field of an embedded cursor: &(&recv.E).f <- v
+				if outer, ok := fa.X.(*ssa.FieldAddr); ok && outer.X == ssa.Value(f.Params[0]) {
+					if ent, ok := st.Field(outer.Field).Type().(*types.Named); ok && len(stepped[ent]) > 0 {
+						a := emb[outer.Field]
+						if a == nil {
+							a = &acc{fields: map[int]bool{}, pos: sto}
+							emb[outer.Field] = a
+						}
+						a.fields[fa.Field] = true
+					}
+				}
+			}
+		}
+		var ks []int
+		for k := range emb {
+			ks = append(ks, k)
+		}
+		sort.Ints(ks)
+		for _, k := range ks {
+			a := emb[k]
+			if a.whole && len(a.fields) == 0 {
+				res.ok(fmt.Sprintf("%s|re-aims %s", fname(f), st.Field(k).Name()), p.ipos(a.pos), "overwritten as a whole")
+				continue
+			}
+			// does this function only step the embedded cursor (x.E.f++ in Next)? then it is not a set-up
+			ent := st.Field(k).Type().(*types.Named)
+			est := ent.Underlying().(*types.Struct)
+			setsNonStepped := false
+			for fi := range a.fields {
+				if _, isStep := stepped[ent][fi]; !isStep {
+					setsNonStepped = true
+				}
+			}
+			if !setsNonStepped && !a.whole {
+				continue
+			}
+			var missing []string
+			for fi := range stepped[ent] {
+				if !a.fields[fi] && !a.whole {
+					missing = append(missing, est.Field(fi).Name())
+				}
+			}
+			sort.Strings(missing)
+			c := fmt.Sprintf("%s|re-aims %s", fname(f), st.Field(k).Name())
+			if len(missing) > 0 {
+				res.bad(c, p.ipos(a.pos), fmt.Sprintf("the embedded cursor %s is pointed at a new container field by field, but its stepped field(s) %v keep the position reached in the previous container", st.Field(k).Name(), missing))
+			} else {
+				res.ok(c, p.ipos(a.pos), "every stepped field assigned")
+			}
+		}
+	}
 	return res
 }
